@@ -12,16 +12,18 @@ cd "$(dirname "$0")/.."
 if [ "${INPLACE:-0}" = 1 ]; then
   if ! git -C /repo diff --quiet; then echo "/repo has local changes; refusing"; exit 3; fi
   git -C /repo apply "$p" || { echo "patch does not apply"; exit 3; }
-  trap 'git -C /repo checkout -- . ; rm -rf evidence/replays' EXIT INT TERM
+  trap 'git -C /repo checkout -- . ' EXIT INT TERM
   target=/repo
 else
   target=/tmp/try_seed_$$
   git -C /repo worktree add -q "$target" HEAD || exit 3
-  trap 'git -C /repo worktree remove --force "$target"; rm -rf evidence/replays' EXIT INT TERM
+  trap 'git -C /repo worktree remove --force "$target"' EXIT INT TERM
   git -C "$target" apply "$p" || { echo "patch does not apply"; exit 3; }
 fi
+ev=$(mktemp -d /tmp/try_seed_ev_XXXXXX)
 for id in "$@"; do
-  out=$(VERIF_REPO=$target ./vcheck "$id" --tier "$tier" --jobs ${VERIF_JOBS:-12} 2>&1); rc=$?
+  out=$(VERIF_EVIDENCE_DIR=$ev VERIF_REPO=$target ./vcheck "$id" --tier "$tier" --jobs ${VERIF_JOBS:-12} 2>&1); rc=$?
   echo "== $id rc=$rc"
-  echo "$out" | grep -v "^KNOWN-FINDING" | head -${SEED_LINES:-6} | cut -c1-260
+  echo "$out" | grep -v "^KNOWN-FINDING" | head -${SEED_LINES:-6} | cut -c1-${SEED_COLS:-260}
 done
+rm -rf "$ev"
